@@ -203,10 +203,12 @@ fn search_decl_references_with_ctx<'a>(
         .get_decl_index()
         .get_decl(&decl_id)?;
     if decl.is_local() {
+        // a local without any use has no entry in the reference index; its declaration is still
+        // part of the answer when the client asks for it
         let decl_refs = semantic_model
             .get_db()
             .get_reference_index()
-            .get_decl_references(&decl_id.file_id, &decl_id)?;
+            .get_decl_references(&decl_id.file_id, &decl_id);
         let document = semantic_model.get_document();
         if ctx.include_declaration
             && let Some(location) = document.to_lsp_location(decl.get_range())
@@ -223,7 +225,7 @@ fn search_decl_references_with_ctx<'a>(
                 | LuaType::Def(_)
         );
 
-        for decl_ref in &decl_refs.cells {
+        for decl_ref in decl_refs.iter().flat_map(|refs| refs.cells.iter()) {
             if !ctx.include_declaration && decl_ref.range == decl.get_range() {
                 continue;
             }
